@@ -259,6 +259,8 @@ def apply_lf_op(ctx: Ctx, op, res: RunResult, in_batch=False):
     if name == "length":
         edge = ctx.edges[op["edge"] % len(ctx.edges)]
         val = _frac_value(op["frac"], 0.01, 1.5)
+        if op["frac"] < 0.08:
+            val = 0.0  # exactly on the lower bound
         if op["const"]:
             lf.set_param_rule("length", edge=edge, is_constant=True, value=val)
         else:
@@ -311,9 +313,37 @@ def run_lf(plan, res: RunResult):
             return True
         res.values.append(f"{got:.9g}")
         if not numpy.isclose(got, want, rtol=1e-9, atol=1e-9):
-            res.add(f"C07.stale/{after}:{fault}",
+            changed = []
+            try:
+                for a, b in zip(rules, fresh.get_param_rules()):
+                    if repr(a) != repr(b):
+                        changed.append((a, b))
+            except Exception:  # noqa: BLE001
+                pass
+            recomputed = None
+            try:
+                lf.update_intermediate_values()
+                recomputed = lf.lnL
+            except Exception:  # noqa: BLE001
+                pass
+            cls = f"C07.stale/{after}:{fault}"
+            try:
+                from cogent3.recalculation.definition import PartitionDefn
+
+                floored = [
+                    d.name for d in lf.defns if isinstance(d, PartitionDefn)
+                    and any((not st.is_constant) and (numpy.asarray(st.value) < 1.0000001e-6).any() for st in d.uniq)
+                ]
+            except Exception:  # noqa: BLE001
+                floored = []
+            if floored and recomputed is not None and numpy.isclose(recomputed, got, rtol=1e-12, atol=0):
+                # not a stale cache: get_param_rules() floors exported probabilities at 1e-6
+                cls = "C07.rules-roundtrip/minprob-floor"
+            res.add(cls,
                     f"lnL={got!r} but a new function with the same rules gives {want!r} (diff {got - want:.3e}) "
-                    f"after {trace}", replay)
+                    f"after {trace}; after forcing a full recomputation the function itself reports {recomputed!r}; "
+                    f"free partition parameters with a component below 1e-6: {floored}; "
+                    f"rules that do not survive export/import: {changed[:3]}", replay)
             return False
         if nfp != want_nfp:
             res.add(f"C07.nfp/{after}:{fault}", f"nfp={nfp} vs fresh {want_nfp} after {trace}", replay)
